@@ -9,26 +9,28 @@
 // the observations and a hash table; Coq re-runs the model on it.
 //
 // The oracle (independent of the model, written from the property text):
-//   (a) for flows of the well-formed kind (one startup, then measurements that
-//       extend AND log: TPMEvent, TPMExtend of a digest directly followed by the
-//       TPMEventLogAdd of the same digest, the PCR0_DATA pair; Panic steps and
-//       refused re-initialisations in between): tpmeventlog.Replay(own log) ==
-//       PCR for both PCRs and both banks (startup logged or locality 0),
-//       tpm.EventLog.Replay(0, alg, startup locality) == PCR0.  A TPMEvent typed
-//       EV_NO_ACTION that was extended is the open finding
-//       C01-noaction-typed-event-extended: a replay of that PCR that differs is
-//       reported as KNOWN, everything else as usual;
-//   (b0) every PCR bank value == the harness' own fold H(old || digest) (Go's
-//       crypto) of the extends the command log records, from the startup value;
-//   (b) re-executing CommandLog.Commands() on a new TPM gives the same PCRs
-//       (Apply by Apply for every flow, Commands.Apply for flows without issues);
-//   (c) every digest extended/logged for a measurement == hash(ConvertedBytes),
-//       ConvertedBytes == converter(concatenation in reference order of the
-//       bytes read INDEPENDENTLY from the artifacts), extend and log-add of one
-//       measurement carry the same digest; TPMInit / InitTPM / LogInit /
-//       TPMEventLogAdd issue exactly the commands they stand for; a measurement
-//       whose data cannot be read or whose extend is refused leaves no commands
-//       and no MeasuredData entry.
+//
+//	(a) for flows of the well-formed kind (one startup, then measurements that
+//	    extend AND log: TPMEvent, TPMExtend of a digest directly followed by the
+//	    TPMEventLogAdd of the same digest, the PCR0_DATA pair; Panic steps and
+//	    refused re-initialisations in between): tpmeventlog.Replay(own log) ==
+//	    PCR for both PCRs and both banks (startup logged or locality 0),
+//	    tpm.EventLog.Replay(0, alg, startup locality) == PCR0.  A TPMEvent typed
+//	    EV_NO_ACTION that was extended is the open finding
+//	    C01-noaction-typed-event-extended: a replay of that PCR that differs is
+//	    reported as KNOWN, everything else as usual;
+//	(b0) every PCR bank value == the harness' own fold H(old || digest) (Go's
+//	    crypto) of the extends the command log records, from the startup value;
+//	(b) re-executing CommandLog.Commands() on a new TPM gives the same PCRs
+//	    (Apply by Apply for every flow, Commands.Apply for flows without issues);
+//	(c) every digest extended/logged for a measurement == hash(ConvertedBytes),
+//	    ConvertedBytes == converter(concatenation in reference order of the
+//	    bytes read INDEPENDENTLY from the artifacts), extend and log-add of one
+//	    measurement carry the same digest; TPMInit / InitTPM / LogInit /
+//	    TPMEventLogAdd issue exactly the commands they stand for; a measurement
+//	    whose data cannot be read or whose extend is refused leaves no commands
+//	    and no MeasuredData entry.
+//
 // Steps whose actions cannot be matched with their items (e.g. a LogInit that
 // logs one bank only) are reported as oracle failures with the flow as input.
 package main
